@@ -116,6 +116,14 @@ engine_a("C31",
     quick=tier(1500, 40),
 )
 
+engine_a("C32",
+    scenarios=["C32.pending"],
+    technique="deterministic simulation of an initiator (real HandshakeManager, timer wheel, firewall, config reload) against a peer that is unreachable / reachable from the k-th attempt, on the simulated clock; wire-level retransmission schedule, pending-state cleanup, queue cap and queue release checked against the statement",
+    rule="one run = try interval (50-333 ms) x retries (2-12) x reachability (never, or from attempt k) x 0-150 packets sent while pending (ports inside/outside the outbound rule) x optional outbound-rule reload while queued x optional node stall; distinct = distinct abstract trace hash; non-trivial = at least two transmissions of the first handshake message were observed",
+    level_text="Seeded search over retry/queue histories on the simulated clock: every retransmission must be byte-identical, the k-th gap must lie in [k*I,(k+2)*I] (upper bound waived only across an injected stall), at most `retries` transmissions (exactly `retries` when the peer never answers), afterwards the pending entry and its index are gone, the queue never exceeds 100, and after completion the peer's tun receives exactly the queued packets the outbound rules in force at completion allow, once each and in queue order. Evidence, not proof.",
+    quick=tier(3000, 35),
+)
+
 NOT_APPLICABLE = {
     "C03": "pure encode/decode round trip over input bytes; no clock, schedule, fault or second party for a simulator to control",
     "C04": "pure function of (certificate to sign, signer); offline CLI; nothing to schedule or fault",
